@@ -365,7 +365,7 @@ def main(ctx):
         if not r or r.get("out") != "ok":
             ctx.violation(("script-result", "eval failed"), {"case": c["src"][:300], "detail": r})
             continue
-        if r["py"] != c["want"]:
+        if numnorm(r["py"]) != numnorm(c["want"]):
             cid = h(["sr", c["src"]])
             if ctx.known_cell(cid, h(r["py"], 10)):
                 continue
@@ -419,6 +419,23 @@ def main(ctx):
     ctx.sample(scases[5]["src"][:200])
     ctx.sample(acases[3]["call"])
     ctx.assumptions += ["stated mapping: None/undefined/null -> None, dict keys -> str(k) (later duplicates win), tuples/bytes/sets unsupported"]
+
+
+def numnorm(e):
+    """Script results: JavaScript has one number type, so a result may come back as int or float
+    (0 and 0.0 are the same script value); compare numbers by value, sign of zero and NaN-ness."""
+    import struct
+    t = e[0]
+    if t == "i":
+        try:
+            return ["d", struct.pack(">d", float(int(e[1]))).hex()]
+        except OverflowError:
+            return e
+    if t == "l":
+        return ["l", [numnorm(x) for x in e[1]]]
+    if t == "m":
+        return ["m", [[k, numnorm(x)] for k, x in e[1]]]
+    return e
 
 
 def has_unsupported(e):
